@@ -333,7 +333,8 @@ impl Stdio {
                 Ok((ChildStdio::Owned(fd.into_inner()), None))
             }
 
-            Stdio::RawFd(fd) => Ok((ChildStdio::Owned(OwnedFd(fd)), None)),
+            // The number is all we were given, the descriptor stays the caller's to close
+            Stdio::RawFd(fd) => Ok((ChildStdio::Raw(fd), None)),
         }
     }
 }
@@ -341,6 +342,8 @@ impl Stdio {
 pub enum ChildStdio {
     Inherit,
     Owned(OwnedFd),
+    /// A descriptor the caller passed by number, used for the child, never closed here
+    Raw(RawFd),
 }
 
 impl ChildStdio {
@@ -348,6 +351,7 @@ impl ChildStdio {
         match self {
             ChildStdio::Inherit => None,
             ChildStdio::Owned(fd) => Some(fd.0),
+            ChildStdio::Raw(fd) => Some(*fd),
         }
     }
 }
